@@ -29,8 +29,18 @@ CFG = dict(
                "(any fix batch whose new segments carry no marker keeps the invariant), C12_parse_leaves_contiguous (with C01 tiling "
                "and the C02 well-formedness hypothesis), C12_templated_file_line_pos / C12_marker_new_positions (a templated file answers with the "
                "line/col computed from the text the source flag selects; a fresh marker sits at the line/col of its templated start in the "
-               "templated text). The grammar-dependent clauses (brackets match, nodes start/end with code, "
-               "indent balance) are observed directly on every tree and monitored (blocking), not proved.",
+               "templated text). Grammar-dependent clauses, as closed theorems about the Gallina interpreter of the parser engine "
+               "(Pem, DESIGN 6.21; validated against the real parser under C02) with decidable side conditions evaluated by vm_compute on all 13 dumped "
+               "grammar graphs on every run (coq/gen/PemMeta_<d>.v, PemBrk_<d>.v, theorems instantiated per dialect): "
+               "Pem_clean_parse_meta_balanced / Pem_match_net_value (meta_balanced_b g: a consistent table of net Indent/Dedent values per node; for every "
+               "token list without tokens of a valued node kind, regex oracle, fuel and span the inserted metas of a root match without unparsable "
+               "section sum to zero), C12_apply_metas_are_inserts + Pem_clean_parse_tree_meta_balanced (MatchResult::apply creates one meta per insert "
+               "entry, so the File tree root_parse builds balances), both hypotheses shown necessary by vm_compute witnesses "
+               "(Pem_meta_balance_arbitrary_graph_refuted, Pem_meta_balance_token_kind_refuted); Pem_bracketed_shape / Pem_match_bracketed_shape "
+               "(brk_safe_b g, which implies wf_safe_b: every bracketed node of every match has the opening bracket token as its first child and "
+               "the closing bracket token of the same pair of a bracket set at its end), Pem_bracket_shape_arbitrary_graph_refuted. "
+               "Still only observed on every tree (blocking monitors): nodes start/end with code; the transfer of the bracket shape through apply "
+               "to the tree node; conditionals are valued under the dumped indentation configuration.",
     level_note="Trusted: Coq kernel; hand-written models tied by sampled correspondence; which segments a fix batch edits is an oracle "
                "(its contract H_edit_pre is monitored on every recorded position_segments call); rule bodies and the reflow engine are not "
                "modelled; columns are byte based as in the code.",
